@@ -140,7 +140,7 @@ def inv_oracle(vals, line):
 
 
 
-GROUP_DBL = dict(name='dbl', sources=['h_dbl.cpp'], repo_sources=[], driver=None, replay_prefix=('o.c13.cinvd', 'o.c14.angletypes', 'o.c15.dyadic'))
+GROUP_DBL = dict(name='dbl', sources=['h_dbl.cpp'], repo_sources=[], driver=None, replay_prefix=('o.c13.cinvd', 'o.c13.inttypes', 'o.c14.angletypes', 'o.c15.dyadic'))
 
 
 def gen_dbl_c13(g, tier):
@@ -170,6 +170,15 @@ def gen_dbl_c13(g, tier):
             for z in row: flat += [F(int(z.real)), F(int(z.imag))]
         for sc in (1.0, 1e-170, 1e-200, 1e155, 1e200, 2.0 ** -600, 2.0 ** 520):
             cs.append(Case('o.c13.cinvd %d %s %s' % (n, dhex(sc), frs(flat)), 'orc', 'complex-double-inverse-extreme-scale', check=cinvd_ok))
+    return cs
+
+
+def gen_dbl_inttypes(g, tier):
+    """integer- and float-typed scalars against the double scalar (harness group dbl): Vector, Matrix, Stokes, Quaternion, Estimate"""
+    cs = []
+    for _ in range(10 if tier == 'quick' else 300):
+        k = g.choice([2, 3, -7, 1, -1, 10, 100, g.randint(2, 60), -g.randint(2, 60)])
+        cs.append(Case('o.c13.inttypes %d %s' % (k, ' '.join(dhex(g.r.uniform(-5, 5)) for _ in range(4))), 'orc', 'scalar-of-another-arithmetic-type'))
     return cs
 
 
